@@ -83,6 +83,11 @@ int main(int argc, char** argv) {
     std::string nm = fmt("manual(%+d min)", m);
     for (int64_t t = s0 + (int64_t)((a.seed * 131 + oi * 17) % stride); t <= s1; t += stride) check_instant(tz, nm.c_str(), t, m * 60, a.thorough ? manual_only : tg, true, !a.thorough || (t % 61 == 0));
     oi++;
+    // every UTC midnight and every local midnight of this shard's span, +-1 s (where floor/ceil slips of the day split live)
+    if (!a.thorough) {
+      for (int64_t d = s0 / 86400 - 1; d <= s1 / 86400 + 1; d++) for (int64_t base : {d * 86400, d * 86400 - (int64_t)m * 60}) for (int64_t t = base - 1; t <= base + 1; t++)
+        if (t >= s0 && t <= s1) check_instant(tz, nm.c_str(), t, m * 60, manual_only, true, false);
+    }
     // boundaries
     std::vector<int64_t> cs = {0, lo + 86400, hi - 86400, -UNIX, (int64_t)INT32_MAX - UNIX};
     for (size_t i = 0; i < cs.size(); i++) if ((int)((i + oi) % a.nshards) == a.shard)
